@@ -17,6 +17,12 @@ import (
 // generator, or too loose). The real runtime need not reach every allowed
 // outcome; the simulator must (TestConformance).
 
+// realScale stretches the sleeps by which the timing-dependent programs let
+// another goroutine reach its blocking point. On a loaded machine a millisecond
+// may not be enough; an outcome outside the allowed set only counts when it
+// persists with sleeps 10 and 100 times as long.
+var realScale time.Duration = 1
+
 var realPrograms = map[string]func() string{
 	"unbuffered rendezvous": func() string {
 		c := make(chan int)
@@ -44,7 +50,7 @@ var realPrograms = map[string]func() string{
 		for i := 0; i < 2; i++ {
 			go func() { _, ok := <-c; r <- ok }()
 		}
-		time.Sleep(time.Millisecond)
+		time.Sleep(realScale * time.Millisecond)
 		close(c)
 		return fmt.Sprint(<-r, <-r)
 	},
@@ -62,7 +68,7 @@ var realPrograms = map[string]func() string{
 			defer func() { out <- fmt.Sprint("panic:", recover()) }()
 			c <- 1
 		}()
-		time.Sleep(time.Millisecond)
+		time.Sleep(realScale * time.Millisecond)
 		close(c)
 		return <-out
 	},
@@ -192,14 +198,14 @@ var realPrograms = map[string]func() string{
 		mu.RLock()
 		var got atomic.Bool
 		go func() { mu.Lock(); mu.Unlock() }()
-		time.Sleep(2 * time.Millisecond)
+		time.Sleep(realScale * 2 * time.Millisecond)
 		go func() { mu.RLock(); got.Store(true); mu.RUnlock() }()
-		time.Sleep(2 * time.Millisecond)
+		time.Sleep(realScale * 2 * time.Millisecond)
 		if got.Load() {
 			return "reader overtook writer"
 		}
 		mu.RUnlock()
-		time.Sleep(2 * time.Millisecond)
+		time.Sleep(realScale * 2 * time.Millisecond)
 		if !got.Load() {
 			return "reader never ran"
 		}
@@ -314,6 +320,14 @@ func TestRealRuntimeWithinAllowedSets(t *testing.T) {
 		}
 		for i := 0; i < reps; i++ {
 			out := prog()
+			for _, sc := range []time.Duration{10, 100} {
+				if allowed[out] {
+					break
+				}
+				realScale = sc
+				out = prog()
+				realScale = 1
+			}
 			if !allowed[out] {
 				t.Errorf("%s: the real runtime produced %q, which the allowed set %v does not contain", name, out, m.allowed)
 				break
